@@ -478,11 +478,76 @@ def _w_c10_builtins(task):
     return res
 
 
+class _L(list):
+    pass
+
+
+_NT = collections.namedtuple('_NT', 'p q')
+
+
+def _w_c10_typed_rounding(task):
+    """typed=True together with a rounding tolerance (shallow and deep): arguments that compare equal but differ in type --
+    1 / 1.0 / True, a dict and its subclasses, a tuple and a namedtuple, a list and a list subclass, 0.0 / -0.0 / 0 / False --
+    keep different keys after the rounding step has been through them (deep rounding rebuilds containers)"""
+    _, tier, mod, alg = task
+    import klepto
+    import klepto.safe
+    import klepto.keymaps as km
+    res = {'counts': collections.Counter(), 'violations': [], 'samples': [], 'nontrivial': 0, 'outcomes': set(), 'config': task[2:]}
+    NT = _NT
+    groups = [[1, 1.0, True], [{'a': 1.26}, collections.OrderedDict(a=1.26), collections.defaultdict(int, a=1.26), collections.Counter(a=1.26)],
+              [(1.26, 2), NT(1.26, 2)], [[1.26], _L([1.26])], [0.0, -0.0, 0, False], [{'a': [1.26]}, collections.OrderedDict(a=[1.26])]]
+    kms = [('stringmap(typed)', lambda: km.stringmap(typed=True)), ('stringmap(typed,flat=False)', lambda: km.stringmap(typed=True, flat=False)),
+           ('picklemap(pickle,typed)', lambda: km.picklemap(typed=True, serializer='pickle')), ('hashmap(md5,typed)', lambda: km.hashmap(typed=True, algorithm='md5'))]
+    m = klepto.safe if mod == 'safe' else klepto
+    for kmname, mk in kms:
+        for tol, deep in ((None, False), (1, False), (1, True), (0, True), (-1, True)):
+            def f(x, y=None, **opts):
+                return None
+            f.__module__ = 'vfw_generated'
+            if alg == 'keygen':
+                W = KeygenShim(klepto.keygen(keymap=mk(), tol=tol, deep=deep)(f))
+            else:
+                kw = {} if alg in ('no', 'inf') else {'maxsize': 1000}
+                W = getattr(m, alg + '_cache')(keymap=mk(), tol=tol, deep=deep, **kw)(f)
+            res['counts']['programs'] += 1
+            for g in groups:
+                for form in ('positional', 'keyword', 'extra keyword'):
+                    keys = []
+                    for v in g:
+                        res['counts']['evaluations'] += 1
+                        try:
+                            k = W.key(v) if form == 'positional' else W.key(x=v) if form == 'keyword' else W.key(0, zz=v)
+                            keys.append(repr(k))
+                        except Exception as e:
+                            keys.append(None)
+                            if not (isinstance(e, TypeError) and 'pickle' in kmname):
+                                res['violations'].append(_v('C10', {'rule': 'key-raises', 'exc': type(e).__name__, 'keymap': kmname, 'form': 'typed+rounding'},
+                                                            '%s.%s tol=%r deep=%r %s: key for %r (%s) raised %r' % (mod, alg, tol, deep, kmname, v, form, e),
+                                                            {'task': list(task), 'value': repr(v)}))
+                    res['nontrivial'] += 1
+                    for i in range(len(g)):
+                        for j in range(i + 1, len(g)):
+                            if keys[i] is not None and keys[i] == keys[j] and type(g[i]) is not type(g[j]):
+                                res['violations'].append(_v('C10', {'rule': 'typed-keymap-merges-types', 'keymap': kmname, 'form': 'typed+rounding', 'typed': True,
+                                                                    'cause': 'other'},
+                                                            '%s.%s tol=%r deep=%r %s: %r (%s) and %r (%s), passed as %s, share key %s' % (
+                                                                mod, alg, tol, deep, kmname, g[i], type(g[i]).__name__, g[j], type(g[j]).__name__, form, keys[i][:80]),
+                                                            {'task': list(task), 'values': [repr(g[i]), repr(g[j])]}))
+    res['samples'].append({'config': '%s.%s' % (mod, alg), 'equal_but_differently_typed': [repr(x) for x in groups[1]]})
+    res['counts'] = dict(res['counts'])
+    res['outcomes'] = []
+    res['config_summary'] = '%s.%s typed keymaps x rounding [typed + rounding]' % (mod, alg)
+    return res
+
+
 def _w_dispatch(task):
     if task[0] == 'C09-decorators':
         return _w_c09_decorators(task)
     if task[0] == 'C10-builtins':
         return _w_c10_builtins(task)
+    if task[0] == 'C10-typed-rounding':
+        return _w_c10_typed_rounding(task)
     return _w_c0910(task)
 
 
@@ -512,6 +577,10 @@ def run_c0910(prop, tier, seed):
         for kmname, mk, preserving in callmc.keymaps(tier):
             if preserving:
                 tasks.append(('C10-builtins', tier, kmname))
+        for mod in ('klepto', 'safe'):
+            for alg in ('no', 'inf', 'lfu', 'lru', 'mru', 'rr'):
+                tasks.append(('C10-typed-rounding', tier, mod, alg))
+        tasks.append(('C10-typed-rounding', tier, 'klepto', 'keygen'))
     for res in pool.run_configs(_w_dispatch, tasks, seed=seed):
         rep.merge(res)
     rep.extra['signatures'] = len(specs)
